@@ -20,6 +20,9 @@ func (g *EvGen) tags(kind int64) []mocrelay.Tag {
 	r := g.r
 	tags := []mocrelay.Tag{}
 	n := r.Intn(4)
+	if r.P(8) {
+		n = r.Range(4, 8) // tag-heavy: names repeat, adjacent and not
+	}
 	for i := 0; i < n; i++ {
 		name := pick(r, tagNames)
 		switch r.Intn(6) {
@@ -38,6 +41,9 @@ func (g *EvGen) tags(kind int64) []mocrelay.Tag {
 		}
 		pos := r.Intn(len(tags) + 1)
 		tags = append(tags[:pos], append([]mocrelay.Tag{d}, tags[pos:]...)...)
+		if r.P(12) {
+			tags = append(tags, mocrelay.Tag{"d", pick(r, dvals)}) // a further d tag: the address is the FIRST one's value
+		}
 	}
 	return tags
 }
@@ -172,10 +178,92 @@ func (g *EvGen) deletionChain() []*mocrelay.Event {
 	return append(seq, cloneEv(x))
 }
 
+// selfDeletion scripts a deletion request that names ITSELF among other targets (in any tag position): it leaves
+// the store while it is being processed, so nothing it names may stay blocked afterwards.  The targets are offered
+// before and again after the request.
+func (g *EvGen) selfDeletion() []*mocrelay.Event {
+	r := g.r
+	author := pick(r, authors)
+	mk := func() *mocrelay.Event {
+		x := g.Event()
+		x.Pubkey = author
+		if r.P(40) {
+			x.Kind = 30023
+			x.Tags = g.tags(30023)
+		} else if r.P(50) {
+			x.Kind = 1
+			x.Tags = g.tags(1)
+		}
+		return x
+	}
+	ref := func(x *mocrelay.Event) mocrelay.Tag {
+		if a := addrOf(x); a != "" && x.Kind >= 30000 && r.P(50) {
+			return mocrelay.Tag{"a", a}
+		}
+		return mocrelay.Tag{"e", x.ID}
+	}
+	x, y := mk(), mk()
+	g.nextID++
+	k := &mocrelay.Event{ID: eventID(g.nextID), Pubkey: author, CreatedAt: int64(r.Range(1, 12)), Kind: 5, Content: "del", Sig: sig128(g.nextID)}
+	self := mocrelay.Tag{"e", k.ID}
+	switch r.Intn(4) {
+	case 0:
+		k.Tags = []mocrelay.Tag{self, ref(x)}
+	case 1:
+		k.Tags = []mocrelay.Tag{ref(x), self}
+	case 2:
+		k.Tags = []mocrelay.Tag{self, ref(x), ref(y)}
+	default:
+		k.Tags = []mocrelay.Tag{ref(x), self, ref(y)}
+	}
+	g.made = append(g.made, k)
+	var seq []*mocrelay.Event
+	if r.P(60) {
+		seq = append(seq, x)
+	}
+	if r.P(30) {
+		seq = append(seq, y)
+	}
+	seq = append(seq, k, cloneEv(x), cloneEv(y))
+	if r.P(30) {
+		seq = append(seq, cloneEv(k))
+	}
+	return seq
+}
+
 // Filter over the same universe.  wide=false keeps it selective.
 func (g *EvGen) Filter() *mocrelay.ReqFilter {
 	r := g.r
 	f := &mocrelay.ReqFilter{}
+	if len(g.made) > 0 && r.P(6) {
+		// "fetch this address": one author, one kind and — for an addressable event — one d value, which may be
+		// ANY of the event's d tags (a tag condition matches any tag of that name, not only the first)
+		if x := pickVersioned(r, g.made); x != nil {
+			f.Authors = []string{x.Pubkey}
+			f.Kinds = []int64{x.Kind}
+			if x.Kind >= 30000 && x.Kind < 40000 {
+				var ds []string
+				for _, t := range x.Tags {
+					if len(t) > 0 && t[0] == "d" {
+						if len(t) > 1 {
+							ds = append(ds, t[1])
+						} else {
+							ds = append(ds, "")
+						}
+					}
+				}
+				if len(ds) > 0 {
+					f.Tags = map[string][]string{"d": {pick(r, ds)}}
+				} else if r.P(50) {
+					f.Tags = map[string][]string{"d": {""}}
+				}
+			}
+			if r.P(30) {
+				f.Limit = ptr(int64(pick(r, []int{1, 2})))
+			}
+			return f
+		}
+	}
 	if r.P(25) {
 		f.IDs = []string{}
 		for i := r.Intn(3); i > 0; i-- {
@@ -200,7 +288,11 @@ func (g *EvGen) Filter() *mocrelay.ReqFilter {
 	}
 	if r.P(35) {
 		f.Tags = map[string][]string{}
-		for i := r.Range(1, 2); i > 0; i-- {
+		nc := r.Range(1, 2)
+		if r.P(15) {
+			nc = r.Range(3, 4) // several tag conditions: all but one satisfied is then a common case
+		}
+		for i := nc; i > 0; i-- {
 			name := pick(r, []string{"e", "p", "t", "a", "d", "E"})
 			vs := []string{}
 			for j := r.Intn(3); j > 0; j-- {
